@@ -730,20 +730,26 @@ def _as_csr(g):
 
 
 def core_cases(ctx, graphs_):
-    """compute_core: the checked model (SkNet/Model/KernelsHeap.lean, theorem inbounds_core) against the kernel."""
-    from sknetwork.topology import get_core_decomposition
-    cases = []
+    """compute_core: the checked model (SkNet/Model/KernelsHeap.lean, theorem inbounds_core) against the kernel,
+    which runs in supervised workers (a mutated kernel must not take the harness down)."""
+    tasks = []
     for g in graphs_:
         if g['n'] != g['m']:
             continue
-        a = _as_csr(g)
-
-        def f():
-            return 'ok ' + enc_list(get_core_decomposition(a))
-        try:
-            impl = f()
-        except Exception as e:  # noqa
-            impl = 'err ' + type(e).__name__
+        tasks.append({'id': len(tasks), 'algo': 'get_core_decomposition', 'graph': g, 'extra': {'want_value': True},
+                      'flavour': 'plain'})
+    res = run_pool(ctx.overlay_root, tasks, 10, _nworkers(), tag='k')
+    judge(ctx, tasks, res, 'plain')
+    cases = []
+    for t in tasks:
+        r = res[t['id']]
+        g = t['graph']
+        if r['status'] == 'ok' and 'value' in r:
+            impl = 'ok ' + enc_list(r['value'])
+        elif r['status'] == 'exc':
+            impl = 'err ' + str(r.get('exc'))
+        else:
+            continue            # timeout / crash / skipped: already judged
         run = 'c17.core %s %s' % (enc_list(g['indptr']), enc_list(g['indices']))
         cases.append(Case(('core', run), {'entry': 'get_core_decomposition', 'kind': 'model'}, run, impl, None,
                           len(g['indices']) > 0, {'task': {'algo': 'get_core_decomposition', 'graph': g, 'extra': {},
